@@ -22,6 +22,7 @@ import urllib.parse as up
 
 from lib.framework import Check, enc, dec, time_limit
 from harness import c19_sheets as S
+from harness import c19_vfs as V
 
 ALPH = ['a', 'b', 'x.png', 'css', 'img', '..', '.', '/', '/', '/', '//', '?', '#', ';', ':', '%41', '%', ' ', 'é',
         '@', '+', '~', 'http:', '//h', 'h', '\t', '=', 'v', 'A', '-', '_', '&', '日', '\U0001F600', '\\', '"', "'",
@@ -88,6 +89,7 @@ class C19(Check):
             self.corpus(ctx, cssutils)
             self.corr_strings(ctx, cssutils)
             self.corr_urls(ctx, cssutils)
+            self.flatten(ctx, cssutils)
         finally:
             cssutils.ser.prefs.useDefaults()
 
@@ -232,6 +234,172 @@ class C19(Check):
                     'OK ' + S.wire_sheet(after) + ' | ' + ' '.join(enc(u) for u in log)))
         return res
 
+    # -- correspondence + oracle: loading and flattening an import tree -----------------------------
+    def flatten(self, ctx, cssutils):
+        rng = ctx.sub_rng('flatten')
+        lines, exp, metas = [], [], []
+        for i in range(ctx.n(700, 14000)):
+            r = rng.random()
+            if r < 0.55:
+                case = V.gen_case(rng, exotic=0.0, fn_url_p=0.0, features={'cycle': 0.0, 'otherhost': 0.0})
+                stream = 'clean'
+            elif r < 0.8:
+                case = V.gen_case(rng, exotic=0.0, fn_url_p=0.0)
+                stream = 'edges'
+            else:
+                case = V.gen_case(rng, exotic=0.15, fn_url_p=0.3)
+                stream = 'exotic'
+            for line, want in self.flatten_case(ctx, cssutils, case, rng, stream):
+                lines.append(line)
+                exp.append(want)
+                metas.append(case)
+        out = ctx.driver(lines) if ctx.model_ok else [None] * len(lines)
+        for line, want, got, case in zip(lines, exp, out, metas):
+            if got is None or want is None:
+                continue
+            if got.startswith('UNSUPPORTED') or got.startswith('PARSE-UNSUPPORTED'):
+                ctx.count('flatten:unsupported-by-model')
+                continue
+            if norm_ws(got) != norm_ws(want):
+                ctx.disagree(line.split(' ', 1)[0], case_json(case), explain(want), explain(got))
+
+    def run_impl(self, cssutils, case, texts, main_text):
+        """parse the main sheet with a fetcher over the virtual file system; the default fetcher (used by sheets
+        that have no fetcher of their own) is replaced by one over the same file system"""
+        import cssutils.util
+        log = []
+
+        def fetch(url):
+            log.append(('u', url))
+            return (None, texts[url]) if url in texts else None
+
+        def dfetch(url):
+            log.append(('d', url))
+            return (None, texts[url]) if url in texts else None
+        old = cssutils.util._defaultFetcher
+        cssutils.util._defaultFetcher = dfetch
+        return log, fetch, old
+
+    def flatten_case(self, ctx, cssutils, case, rng, stream, spell=True):
+        import cssutils.util
+        import xml.dom
+        main_text, texts = V.render_case(case, rng if spell else None)
+        w = {'href': case['href'], 'css': main_text, 'vfs': texts}
+        log, fetch, old = self.run_impl(cssutils, case, texts, main_text)
+        res = []
+        try:
+            with time_limit(30):
+                parser = cssutils.CSSParser(fetcher=fetch)
+                sheet = parser.parseString(main_text, href=case['href'])
+            # the texts must denote the abstract sheets (C02's business otherwise)
+            if S.shallow(S.p_rules(sheet.cssRules, deep=False)) != S.shallow(case['main']):
+                ctx.count('flatten:render-parse-mismatch')
+                return []
+            loaded = S.p_rules(sheet.cssRules, deep=True)
+            n_parse = len(log)
+            head = 'parse %s %s %s' % (enc(case['href']), S.wire_vfs(case['vfs']), S.wire_sheet(case['main']))
+            res.append((head, 'OK %s | %s' % (S.wire_sheet(loaded), show_log(log))))
+            orig = V.meaning(case['main'], case['href'], case['vfs'])
+            cyc = V.has_cycle(case)
+            nontrivial = bool(case['vfs'])
+            ctx.case(key=('flatten', main_text, tuple(sorted(texts.items()))), nontrivial=nontrivial,
+                     kind='flatten:%s:%d-sheets' % (stream, min(len(case['vfs']), 6)),
+                     sample={'href': case['href'], 'css': main_text, 'vfs': texts})
+            # oracle: every available target fetched exactly once per import edge, by the parser's fetcher
+            got_f = collections_counter(u for k, u in log)
+            if got_f != orig.fetches or any(k != 'u' for k, u in log):
+                extra = {u: (got_f[u], orig.fetches[u]) for u in set(got_f) | set(orig.fetches)
+                         if got_f[u] != orig.fetches[u]}
+                only_unavailable = all(u not in case['vfs'] and got_f[u] == 2 * orig.fetches[u] for u in extra)
+                if not cyc:
+                    ctx.violate('each @import target is fetched once per import edge',
+                                w, {'fetched_vs_expected': extra},
+                                known='C19-unavailable-refetched' if only_unavailable else None)
+            try:
+                with time_limit(30):
+                    result = cssutils.resolveImports(sheet)
+                flat_rules = S.p_rules(result.cssRules, deep=True)
+                got = 'OK ' + S.wire_sheet(mid(flat_rules))
+                exc = None
+            except (xml.dom.HierarchyRequestErr, ValueError, UnicodeError) as e:
+                got = show_exc(e)
+                exc = e
+            res.append(('resolve' + head[5:], '%s | %s | %s' % (got, show_log(log[n_parse:]), show_log(log[:n_parse]))))
+            # oracle: flattening preserves meaning
+            if exc is not None:
+                ctx.count('flatten:raises:' + type(exc).__name__)
+                ctx.violate('resolveImports returns the flattened sheet (it does not raise)', w,
+                            {'exception': repr(exc)[:300]},
+                            known='C19-media-import-of-kept-import-raises'
+                            if isinstance(exc, xml.dom.HierarchyRequestErr) and hier_region(case) else None)
+            else:
+                if log[n_parse:]:
+                    ctx.violate('flattening fetches nothing: every target was fetched when the sheet was parsed',
+                                w, {'fetched_during_resolveImports': log[n_parse:]},
+                                known='C19-unavailable-refetched'
+                                if all(k == 'd' for k, u in log[n_parse:]) and orig.unavail else None)
+                if not cyc:
+                    flat = V.meaning(S.shallow(flat_rules), case['href'], case['vfs'])
+                    ds = V.compare_meaning(orig, flat)
+                    ctx.count('flatten:meaning-' + ('same' if not ds else 'differs'))
+                    seen = set()
+                    for kind, detail, expl in ds:
+                        if (kind, expl) in seen:
+                            continue
+                        seen.add((kind, expl))
+                        ctx.violate('the flattened sheet means what the sheet with its @imports meant: same rules in '
+                                    'cascade order under the same media, every URL resolving to the same absolute URL '
+                                    '(difference: %s)' % kind, w, detail, known=expl)
+            # the script wrapper: parse (default fetcher), flatten, serialise with its own serializer
+            if not cyc and main_text and rng.random() < 0.6:     # csscombine(cssText='') calls sys.exit
+                self.combine_case(ctx, cssutils, case, main_text, texts, rng, w, exc, stream)
+        finally:
+            cssutils.util._defaultFetcher = old
+        return res
+
+    def combine_case(self, ctx, cssutils, case, main_text, texts, rng, w, exc, stream):
+        import cssutils.script
+        import xml.dom
+        minify = rng.random() < 0.5
+        tenc = rng.choice([None, None, 'utf-8', 'ascii', 'iso-8859-1']) if stream == 'exotic' else None
+        w = dict(w, call='csscombine', minify=minify, targetencoding=tenc)
+        ctx.case(key=('combine', main_text, tuple(sorted(texts.items())), minify, tenc), nontrivial=bool(case['vfs']),
+                 kind='combine:%s' % ('minified' if minify else 'normal'))
+        prefs_before = dict(cssutils.ser.prefs.__dict__)
+        ser_before = cssutils.ser
+        try:
+            with time_limit(30):
+                out = cssutils.script.csscombine(cssText=main_text, href=case['href'], minify=minify,
+                                                 targetencoding=tenc)
+        except (xml.dom.HierarchyRequestErr, ValueError, UnicodeError) as e:
+            if exc is None or type(e) is not type(exc):
+                ctx.violate('csscombine = serialised resolveImports', w, {'csscombine': repr(e)[:200],
+                                                                         'resolveImports': repr(exc)[:200]})
+            # csscombine has no try/finally around its private serializer, but it only swaps it after flattening
+            return
+        if exc is not None:
+            ctx.violate('csscombine = serialised resolveImports', w, {'csscombine': 'returned',
+                                                                     'resolveImports': repr(exc)[:200]})
+            return
+        if cssutils.ser is not ser_before or dict(cssutils.ser.prefs.__dict__) != prefs_before:
+            ctx.violate('csscombine leaves the global serializer as it was', w, None)
+        try:
+            text = out.decode(tenc or 'utf-8')
+        except UnicodeError as e:
+            ctx.violate('csscombine output is encoded in the target encoding', w, {'error': repr(e)})
+            return
+        back = cssutils.CSSParser(fetcher=lambda u: None).parseString(text, href=case['href'])
+        flat = V.meaning(S.shallow(S.p_rules(back.cssRules, deep=False)), case['href'], case['vfs'], drop_empty=True,
+                         minified=minify)
+        orig = V.meaning(case['main'], case['href'], case['vfs'], drop_empty=True, minified=minify)
+        seen = set()
+        for kind, detail, expl in V.compare_meaning(orig, flat):
+            if (kind, expl) in seen:
+                continue
+            seen.add((kind, expl))
+            ctx.violate('the text csscombine returns means what the sheet with its @imports meant '
+                        '(difference: %s)' % kind, dict(w, output=text), detail, known=expl)
+
     # ------------------------------------------------------------------------------------------
     def replay_case(self, ctx, cssutils, data, corpus=None):
         kind = data.get('case')
@@ -275,6 +443,70 @@ class C19(Check):
             return True
         finally:
             cssutils.ser.prefs.useDefaults()
+
+
+def collections_counter(it):
+    import collections
+    return collections.Counter(it)
+
+
+def show_log(log):
+    return ' '.join('%s:%s' % (k, enc(u)) for k, u in log)
+
+
+def norm_ws(s):
+    return ' '.join(s.split())
+
+
+def mid(rules):
+    """imports with hrefFound and styleSheet.href but without the imported rules (those are shared, mutated objects)"""
+    out = []
+    for r in rules:
+        if r[0] == 'I':
+            out.append(('I', r[1], r[2], r[3], r[4], []))
+        elif r[0] == 'M':
+            out.append(('M', r[1], mid(r[2])))
+        else:
+            out.append(r)
+    return out
+
+
+def case_json(case):
+    return {'case': 'flatten', 'href': case['href'], 'main': case['main'], 'vfs': case['vfs']}
+
+
+def explain(line):
+    """driver/implementation answer with the hex strings decoded, for reading a disagreement"""
+    out = []
+    for w in line.split(' '):
+        if w and all(c in '0123456789ABCDEF.' for c in w) and w not in ('C', 'F', 'D'):
+            try:
+                out.append(repr(dec(w)))
+                continue
+            except ValueError:
+                pass
+        if w[:2] in ('u:', 'd:') and len(w) > 2:
+            out.append(w[:2] + repr(dec(w[2:])))
+        else:
+            out.append(w)
+    return ' '.join(out)
+
+
+def hier_region(case):
+    """region of C19-media-import-of-kept-import-raises: an @import with media other than `all` whose target
+    itself contains an @import"""
+    sheets = [case['main']] + list(case['vfs'].values())
+    import urllib.parse as up2
+    for href, rules in [(case['href'], case['main'])] + list(case['vfs'].items()):
+        for r in rules:
+            if r[0] == 'I' and r[2] != 'all':
+                try:
+                    full = up2.urljoin(href, r[1])
+                except ValueError:
+                    continue
+                if any(x[0] == 'I' for x in case['vfs'].get(full, [])):
+                    return True
+    return False
 
 
 # ------------------------------------------------------------------------------------------------
